@@ -223,7 +223,8 @@ def at_rule(F, rep, rid, exempt, enum_exempt=(), parallel=None):
                     for g, call in cs_:
                         a2 = unwrap_defarg(nth_arg(call, idx))
                         t2 = render(a2)
-                        facts2 = ff(g).rendered_conds_at(call) or set()
+                        from engines import facts_x as _fx2
+                        facts2 = set(ff(g).rendered_conds_at(call) or set()) | set(_fx2(F, g, call) or set())
                         good = ('isStandardUnitName(%s)' % t2, True) in facts2 or (t2.endswith('->name()') and ('isStandardUnit(%s)' % t2[:-8], True) in facts2)
                         oks.append(good)
                     if all(oks):
